@@ -281,13 +281,27 @@ def r_c02_continuation_at_block_boundary(s4, repo, scratch):
             'observed': 'identical' if not bad else 'file %s has %d bytes, printed %d bytes' % bad, 'failed': bool(bad)}
 
 
+def r_c13_evtx_prepend_file_only(s4, repo, scratch):
+    """event-log messages with only the file-name field prepended: every line gets `name:`, nothing else changes"""
+    src = os.path.join(repo, 'logs/programs/evtx/Microsoft-Windows-Kernel-PnP%4Configuration.evtx')
+    rc1, plain, _ = run_s4(s4, ['--color', 'never', src])
+    rc2, deco, err = run_s4(s4, ['--color', 'never', '-n', src])
+    pre = (os.path.basename(src) + ':').encode()
+    stripped = b''.join((l[len(pre):] if l.startswith(pre) else b'<<' + l) for l in deco.splitlines(True))
+    bad = rc2 != 0 or stripped != plain or not plain
+    obs = 'as expected' if not bad else ('exit status %d, %d bytes printed; stderr tail: %s' % (rc2, len(deco), err.decode('utf-8', 'replace').strip().split('\n')[0][:200] if rc2 else 'output differs'))
+    return {'name': 'C13.evtx_prepend_file_only', 'input': src, 'how_made': 'file from the repository',
+            'cmd': '%s --color never -n %s' % (s4, src), 'expected': 'exit 0; removing "<file name>:" from every line leaves the output of the run without -n',
+            'observed': obs, 'failed': bool(bad)}
+
+
 RECIPES = {
     'C02': [r_c02_continuation_at_block_boundary],
     'C04': [r_c04_instants, r_c04_fractions],
     'C10': [r_c03_evtx_window],
     'C01': [r_c01_tie_order, r_c01_chronological],
     'C06': [r_c01_tie_order, r_c01_chronological],
-    'C13': [r_c13_field_order_fixedstruct, r_c13_align_widest_printed],
+    'C13': [r_c13_field_order_fixedstruct, r_c13_align_widest_printed, r_c13_evtx_prepend_file_only],
     'C03': [r_c03_journal_before_inclusive, r_c03_evtx_window, r_c03_yearless_tie_at_after],
     'C08': [r_c08_equal_times, r_c08_order],
 }
